@@ -377,12 +377,20 @@ def all_harnesses(tier):
     return hs
 
 
+def lemma_harnesses():
+    """the from_Matrix / from_Quat leaf lemmas this property's modular (cut) obligations rest on (owned by C07);
+    they are re-discharged here so that this check alone notices a broken leaf"""
+    from . import C07
+    return [C07.FromMatrixLeaf(1), C07.FromMatrixLeaf(-1), C07.EulerLeaf(), C07.Direct("Mrp", "Quat"),
+            C07.Direct("Mrp", "Quat", -1), C07.Shadow()]
+
+
 def get_harness(name, tier="quick"):
-    for h in all_harnesses(tier):
+    for h in all_harnesses(tier) + lemma_harnesses():
         if h.name == name:
             return h
     raise KeyError(name)
 
 
 def jobs(tier, seed):
-    return harness_jobs(__name__, all_harnesses(tier), seed, tier)
+    return harness_jobs(__name__, all_harnesses(tier) + lemma_harnesses(), seed, tier)
